@@ -163,6 +163,9 @@ func checkC05Write(c c05WriteCase) string {
 			return fmt.Sprintf("independent decoder: cue %d timecodes %+v --> %+v, expected %+v --> %+v (instants %v --> %v, rate %d, programme start %+v)", i, gIn, gOut, wantTC[i][0], wantTC[i][1], s.Items[i].StartAt, s.Items[i].EndAt, rate, want.TCP)
 		}
 		wvp := wc.VP
+		if teletext && wvp < 1 {
+			wvp = 1 // teletext rows are 1..23 (Tech 3264): the writer documents this clamp
+		}
 		if ind.Cues[i].VP != wvp || ind.Cues[i].JC != wc.JC {
 			return fmt.Sprintf("independent decoder: cue %d VP/JC %d/%d, expected %d/%d", i, ind.Cues[i].VP, ind.Cues[i].JC, wvp, wc.JC)
 		}
@@ -199,8 +202,12 @@ func checkC05Write(c c05WriteCase) string {
 				return fmt.Sprintf("re-read by the library: cue %d boundary %d is %d ns, expected %s ns", i, k, got, exact.FloatString(2))
 			}
 		}
-		if o.Cues[i].VP != wc.VP || o.Cues[i].JC != wc.JC {
-			return fmt.Sprintf("re-read by the library: cue %d VP/JC %d/%d, expected %d/%d", i, o.Cues[i].VP, o.Cues[i].JC, wc.VP, wc.JC)
+		wvp := wc.VP
+		if teletext && wvp < 1 {
+			wvp = 1
+		}
+		if o.Cues[i].VP != wvp || o.Cues[i].JC != wc.JC {
+			return fmt.Sprintf("re-read by the library: cue %d VP/JC %d/%d, expected %d/%d", i, o.Cues[i].VP, o.Cues[i].JC, wvp, wc.JC)
 		}
 		if teletext && knownActive(kfSTLTeletextTextLoss) {
 			continue
